@@ -894,6 +894,19 @@ type c02Job struct {
 	Orders int   `json:"orders,omitempty"` // number of feasible orders of the program (0 = not enumerated)
 	All    bool  `json:"all,omitempty"`
 	First  bool  `json:"first,omitempty"` // first order of its program (the program is counted once)
+	// Churn, when not nil: the job is a churn case (c02_churn.go) instead of a program for gExec.
+	Churn *c02Churn `json:"churn,omitempty"`
+}
+
+// MarshalJSON leaves the (empty) program out of a churn case, so that its replay input is the churn alone.
+func (j c02Job) MarshalJSON() ([]byte, error) {
+	if j.Churn != nil {
+		return json.Marshal(struct {
+			Churn *c02Churn `json:"churn"`
+		}{j.Churn})
+	}
+	type plain c02Job
+	return json.Marshal(plain(j))
 }
 
 func c02Orders(p gProg, limit int) ([][]int, bool) {
@@ -909,6 +922,9 @@ func init() {
 		var job c02Job
 		if err := json.Unmarshal(raw, &job); err != nil {
 			return gSummary{Text: string(raw), Fails: []lib.Failure{{Kind: "tie", Key: "harness/job", What: err.Error()}}}
+		}
+		if job.Churn != nil {
+			return c02ChurnRun(*job.Churn, job, scratch)
 		}
 		return c02Summarise(gExec(&job.Case), job, modelOK)
 	}
@@ -1079,7 +1095,7 @@ func c02SizeBucket(n int) string {
 
 func checkC02(c *lib.Ctx) {
 	r := c.R
-	r.Rule = "options: every program is generated for and run on a server started with an option combination dealt from a shuffled deck — os-backed: ReadOnly() x WithServerWorkingDirectory x WithAllocator; request server: WithStartDirectory x WithRSAllocator x handler set, where the handler set lacks optional interfaces (quick: none, each of StatVFSFileCmder / PosixRenameFileCmder / LstatFileLister / OpenFileWriter / ReadlinkFileLister / RealPathFileLister alone, RealPath in its legacy signature, all lacking; thorough: all 96 combinations). On a read-only server handles are opened for reading only, the WRITEs go to those, and every modifying request (WRITE, SETSTAT, FSETSTAT, REMOVE, MKDIR, RMDIR, RENAME, SYMLINK, posix-rename, hardlink, OPEN with write/creat/trunc) must be answered PERMISSION_DENIED, once, in its turn, without any modifying call on an opened file, while the calls of the served requests around it are held; with a working / start directory the paths are sent relative (one in four absolute); without StatVFSFileCmder statvfs must be answered OP_UNSUPPORTED without a handler call, without the other interfaces the request must reach exactly the fallback method (Filecmd as Rename, Filelist as Stat / Readlink, Filewrite) once and its reply must follow that call's result; hand-written pipelines for read-only servers (18, under working directory x allocator) and for the ten handler sets (6, all orders up to 12 / 120). programs: hand-written depth-4 pipelines, PRNG pipelines of 4…6 mutually independent requests (all 24/120/720 completion orders) and PRNG-drawn pipelines (depth 1…30) over 27 request kinds on open, closed-before, never-issued and wrong-kind handles and on existing/missing paths, ids sequential, descending, random or all equal; every instrumented call (request server: all handler methods; os-backed server: ReadAt/WriteAt/Stat/Readdir/Chmod of the opened files) is held on a gate and the harness opens the gates in a chosen order: ALL feasible completion orders for the small programs, PRNG-chosen orders (uniform, fifo, lifo, earliest-held-longest) for the deep ones, plus un-gated pipelined runs. Big-reply family: servers started with WithAllocator / WithRSAllocator on or off and WithMaxTxPacket / WithRSMaxTxPacket in {default, 65536, 262131, 262132 (longest DATA payload inside / outside an allocator page), 262135, 262136 (DATA reply frame of exactly / one over 256 KiB), 262144, 524288}; five hand-written pipelines per configuration (all completion orders in thorough, the first 6 in quick, on 8 of the 16 configurations) and PRNG pipelines on all 16 in which one request in five has a reply of the largest size: READ of max-tx-1, max-tx, max-tx+1, the page/frame boundary lengths, 300000 and 2^32-1 bytes on a 600000-byte file, READDIR of 120 names of 1400 bytes (request server) / 130 names of 250 bytes (os-backed), REALPATH and READLINK of paths of 131060, 131061 (NAME reply just fits 256 KiB), 131062, 140000, 200000 and 262129 bytes, READLINK of a 4000-byte target, mixed with the ordinary requests. Handles named before their HANDLE reply: both servers number their handles 1, 2, 3 …, so requests (READ, WRITE, FSTAT, FSETSTAT, READDIR, CLOSE) name the number that an OPEN / OPENDIR of the same pipeline is about to be given, one given later, or one never given — behind succeeding and failing OPENs of every kind, each on an object of its own; ten hand-written pipelines (requests sent one by one, so that the READ / WRITE reaches a read/write worker while the command worker is inside the held handler of that OPEN; first 6 / all orders) and PRNG pipelines (one request in four of this family; three in four sent one by one), gated and un-gated. For such a request nothing but the count, id, order and legal type of its reply is judged (the calls it may make on the freshly opened object are logged, never held, never counted); a crash of the server is reported with the case. A case = (server, configuration, program, completion order); non-trivial = at least two calls were held at the same time, a failing request is in the stream, or a reply longer than a default server's longest stands among other replies; distinct by (configuration, options, program shape, read lengths, order)"
+	r.Rule = "options: every program is generated for and run on a server started with an option combination dealt from a shuffled deck — os-backed: ReadOnly() x WithServerWorkingDirectory x WithAllocator; request server: WithStartDirectory x WithRSAllocator x handler set, where the handler set lacks optional interfaces (quick: none, each of StatVFSFileCmder / PosixRenameFileCmder / LstatFileLister / OpenFileWriter / ReadlinkFileLister / RealPathFileLister alone, RealPath in its legacy signature, all lacking; thorough: all 96 combinations). On a read-only server handles are opened for reading only, the WRITEs go to those, and every modifying request (WRITE, SETSTAT, FSETSTAT, REMOVE, MKDIR, RMDIR, RENAME, SYMLINK, posix-rename, hardlink, OPEN with write/creat/trunc) must be answered PERMISSION_DENIED, once, in its turn, without any modifying call on an opened file, while the calls of the served requests around it are held; with a working / start directory the paths are sent relative (one in four absolute); without StatVFSFileCmder statvfs must be answered OP_UNSUPPORTED without a handler call, without the other interfaces the request must reach exactly the fallback method (Filecmd as Rename, Filelist as Stat / Readlink, Filewrite) once and its reply must follow that call's result; hand-written pipelines for read-only servers (18, under working directory x allocator) and for the ten handler sets (6, all orders up to 12 / 120). programs: hand-written depth-4 pipelines, PRNG pipelines of 4…6 mutually independent requests (all 24/120/720 completion orders) and PRNG-drawn pipelines (depth 1…30) over 27 request kinds on open, closed-before, never-issued and wrong-kind handles and on existing/missing paths, ids sequential, descending, random or all equal; every instrumented call (request server: all handler methods; os-backed server: ReadAt/WriteAt/Stat/Readdir/Chmod of the opened files) is held on a gate and the harness opens the gates in a chosen order: ALL feasible completion orders for the small programs, PRNG-chosen orders (uniform, fifo, lifo, earliest-held-longest) for the deep ones, plus un-gated pipelined runs. Big-reply family: servers started with WithAllocator / WithRSAllocator on or off and WithMaxTxPacket / WithRSMaxTxPacket in {default, 65536, 262131, 262132 (longest DATA payload inside / outside an allocator page), 262135, 262136 (DATA reply frame of exactly / one over 256 KiB), 262144, 524288}; five hand-written pipelines per configuration (all completion orders in thorough, the first 6 in quick, on 8 of the 16 configurations) and PRNG pipelines on all 16 in which one request in five has a reply of the largest size: READ of max-tx-1, max-tx, max-tx+1, the page/frame boundary lengths, 300000 and 2^32-1 bytes on a 600000-byte file, READDIR of 120 names of 1400 bytes (request server) / 130 names of 250 bytes (os-backed), REALPATH and READLINK of paths of 131060, 131061 (NAME reply just fits 256 KiB), 131062, 140000, 200000 and 262129 bytes, READLINK of a 4000-byte target, mixed with the ordinary requests. Handles named before their HANDLE reply: both servers number their handles 1, 2, 3 …, so requests (READ, WRITE, FSTAT, FSETSTAT, READDIR, CLOSE) name the number that an OPEN / OPENDIR of the same pipeline is about to be given, one given later, or one never given — behind succeeding and failing OPENs of every kind, each on an object of its own; ten hand-written pipelines (requests sent one by one, so that the READ / WRITE reaches a read/write worker while the command worker is inside the held handler of that OPEN; first 6 / all orders) and PRNG pipelines (one request in four of this family; three in four sent one by one), gated and un-gated. For such a request nothing but the count, id, order and legal type of its reply is judged (the calls it may make on the freshly opened object are logged, never held, never counted); a crash of the server is reported with the case. Volume (churn): per server, with the allocator off and on, ONE un-gated session kept busy for 4 s (thorough: 40 s) with batch after batch of 8…24 READs (1…4096 bytes, content checked) and WRITEs on long-lived handles and 1…3 command requests among them — OPEN, OPENDIR and CLOSE of other handles, FSTAT, STAT — every reply of a batch awaited (count, order, id, legal type, success) before the next batch; tens of thousands of crossings of the read/write lane and the command lane, for races between them whose window is a few instructions wide; these cases run side by side with the others. A case = (server, configuration, program, completion order); non-trivial = at least two calls were held at the same time, a failing request is in the stream, or a reply longer than a default server's longest stands among other replies; distinct by (configuration, options, program shape, read lengths, order)"
 	thorough := c.Tier == "thorough"
 	c02Cfg = gCurCfg(c, "pipe", c02Cfg)
 	modelOK := gProbeModel(c, "c02.run "+c02Cfg+" -")
@@ -1089,14 +1105,18 @@ func checkC02(c *lib.Ctx) {
 	describe := func(raw json.RawMessage) (string, any) {
 		var j c02Job
 		json.Unmarshal(raw, &j)
+		if j.Churn != nil {
+			return j.Churn.Server, j
+		}
 		return j.Case.Prog.Server, j.Case
 	}
 
 	if c.Replay != "" {
 		var in struct {
 			gCase
-			Case     *gCase `json:"case"`
-			Requests string `json:"requests"`
+			Case     *gCase    `json:"case"`
+			Requests string    `json:"requests"`
+			Churn    *c02Churn `json:"churn"`
 		}
 		if err := lib.ReadReplay(c.Replay, &in); err != nil {
 			r.Fail(lib.Failure{Kind: "tie", Key: "replay", What: err.Error()})
@@ -1110,7 +1130,11 @@ func checkC02(c *lib.Ctx) {
 		if in.Case != nil {
 			cs = *in.Case
 		}
-		sums := gRunBatches(c, "c02", []json.RawMessage{gJSON(c02Job{Case: cs})}, 1, modelOK, describe)
+		one := c02Job{Case: cs}
+		if in.Churn != nil {
+			one = c02Job{Churn: in.Churn}
+		}
+		sums := gRunBatches(c, "c02", []json.RawMessage{gJSON(one)}, 1, modelOK, describe)
 		lines, impl := gMerge(r, sums, 4)
 		if modelOK {
 			c.Compare("c02", lines, impl)
@@ -1137,6 +1161,17 @@ func checkC02(c *lib.Ctx) {
 		}
 	}
 	idStyles := []string{"seq", "rand", "desc", "same"}
+	// VOLUME (c02_churn.go): one session per server and allocator setting kept busy with un-gated batches for a fixed
+	// time; they go first and run side by side with everything below.
+	churnMs := 4000
+	if thorough {
+		churnMs = 40000
+	}
+	for _, server := range []string{"rs", "os"} {
+		for _, alloc := range []bool{false, true} {
+			jobs = append(jobs, gJSON(c02Job{Churn: &c02Churn{Server: server, Alloc: alloc, Ms: churnMs, Seed: c.Rand.Int63()}}))
+		}
+	}
 	for _, server := range []string{"rs", "os"} {
 		// Options: every program is generated for, and run on, a server started with an option combination dealt
 		// from a shuffled deck (os-backed: ReadOnly x working directory x allocator; request server: start directory
